@@ -13,7 +13,8 @@ ID = "C19"
 RULE = ("token strings (v2 with secret length 0,1,38-42,50,60, extra path segments, uuid owned by the remote / "
         "home / a third cluster; legacy [0-9a-z]{39..60}; opaque and near-miss strings), remote ids (5 characters, "
         "empty, long), run through SaltToken (salt, twice), the federation token provider with 0-4 tokens and a "
-        "stub local lookup answering found / 401 / 403 / other statuses / an error without status (prov, provhttp, provnc), keepstore's remote client (keep, keepget), the token "
+        "stub local lookup answering found / 401 / 403 / other statuses / an error without status (prov, provhttp, provnc), keepstore's remote client (keep, keepget; keepseq/keepgetseq: 2-5 steps on one keepstore process with 2-3 remotes and 1-2 "
+        "tokens, locators with one or two +R hints), the token "
         "discovery (load) and the legacy saltAuthToken on value-level requests with every placement "
         "(OAuth2/Bearer/Basic header, api_token query parameter, form body, cookie), their combinations, other "
         "parameters (keys and values in canonical and in two alternative percent-encodings), malformed segments and several content types; a case is non-trivial when it carries at "
@@ -154,8 +155,12 @@ def _uuid(rng, remote, home):
 def _secret(rng, weird=True):
     r = rng.random()
     n = rng.choice([50, 50, 50, 0, 1, 38, 39, 40, 40, 41, 42, 60, rng.randint(2, 70)])
-    if r < 0.6:
+    if r < 0.55:
         return _rs(rng, B36, n)
+    if r < 0.6:
+        # around the "looks like a salt" boundary: k hex digits followed by a base36 tail
+        k = rng.choice([39, 40, 40, 41])
+        return _rs(rng, HEXD, k) + rng.choice(["", "z", _rs(rng, B36, 10), _rs(rng, "ghijklmnopqrstuvwxyz", 1) + _rs(rng, B36, 9)])
     if r < 0.8:
         return _rs(rng, HEXD, n)
     if r < 0.9 or not weird:
@@ -345,6 +350,23 @@ def generate(rng, tier):
         remote = _cluster(rng)
         t = _token(rng, remote, home, weird=False)
         cases.append(f"keepget {hx(remote)} {hx(t)}")
+    for _ in range(120 * scale):
+        # several steps on ONE keepstore remoteProxy: the same token meets different remotes and
+        # the same remote different tokens, in every order
+        remotes = [_cluster(rng) for _ in range(rng.choice([2, 2, 3]))]
+        toks = [_token(rng, rng.choice(remotes), home, weird=False) for _ in range(rng.choice([1, 1, 2]))]
+        if rng.random() < 0.7 and not any(_classify(t)[0] == "v2" for t in toks):
+            toks[0] = _v2(rng, rng.choice(remotes), home, weird=False)
+        steps = []
+        getseq = rng.random() < 0.5
+        for _ in range(rng.choice([2, 3, 4, 5])):
+            t = rng.choice(toks)
+            if getseq:
+                hints = rng.sample(remotes, 2) if rng.random() < 0.15 else [rng.choice(remotes)]
+                steps.append("+".join(hxc(r) for r in hints) + ":" + hxc(t))
+            else:
+                steps.append(hxc(rng.choice(remotes)) + ":" + hxc(t))
+        cases.append(("keepgetseq " if getseq else "keepseq ") + ";".join(steps))
     rng.shuffle(cases)
     return cases
 
@@ -446,6 +468,21 @@ def compare(case, impl, model):
             return False
         _, iv = _kv(impl)
         return unhxlist(iv["auth"]) == [unhx(mv["auth"])] and unhxlist(iv["reader"]) == toks[1:]
+    if op == "keepgetseq":
+        ms, is_ = model.split(";"), impl.split(";")
+        steps = case.split(" ")[1].split(";")
+        if len(ms) != len(is_) or len(ms) != len(steps):
+            return False
+        for m, i, st in zip(ms, is_, steps):
+            if m.startswith("refused"):
+                if i != m:
+                    return False
+                continue
+            # one destination: the remote of the last hint, with the model's Authorization
+            last = st.split(":")[0].split("+")[-1]
+            if i != m + "@" + last:
+                return False
+        return True
     if op == "keepget":
         if model.startswith("refused"):
             return impl == model
@@ -750,6 +787,46 @@ def oracle(case, impl):
         if s and _leaks(s, unhx(iv["X"])):
             return "the unsalted secret occurs in the request sent to the remote keep service"
         return None
+    if op == "keepseq":
+        steps = f[1].split(";")
+        outs = impl.split(";")
+        if len(outs) != len(steps):
+            return "driver could not observe the sequence: " + impl[:200]
+        for n, (st, o) in enumerate(zip(steps, outs)):
+            r, t = st.split(":")
+            w = _oracle_salt(unhx(t), unhx(r), o.replace("-", " ", 1))
+            if w:
+                return f"step {n + 1} of the sequence (remote {unhx(r)!r}): {w}"
+        return None
+    if op == "keepgetseq":
+        steps = f[1].split(";")
+        outs = impl.split(";")
+        if len(outs) != len(steps):
+            return "driver could not observe the sequence: " + impl[:200]
+        for n, (st, o) in enumerate(zip(steps, outs)):
+            hints, t = st.split(":")
+            hints, t = [unhx(h) for h in hints.split("+")], unhx(t)
+            c = _classify(t)
+            if o.startswith("refused"):
+                if c[0] == "v2" and len(c[2]) != 40:
+                    return f"step {n + 1}: a saltable v2 token was refused"
+                continue
+            for pair in o.split("|"):
+                if not pair.startswith("sent-") or "@" not in pair:
+                    return "driver could not observe the request: " + pair[:200]
+                a, dest = pair[5:].split("@")
+                if dest.startswith("unknown"):
+                    return f"step {n + 1}: a request went to a host of no configured remote"
+                dest = unhx(dest)
+                if dest not in hints:
+                    return f"step {n + 1}: a request went to remote {dest!r} that the locator does not name"
+                if c[0] != "v2":
+                    return f"step {n + 1}: a request was sent with a token that cannot be salted"
+                want = _salted(c[1], c[2], dest) if len(c[2]) != 40 else t
+                if unhxlist(a) != ["OAuth2 " + want]:
+                    return (f"step {n + 1}: remote {dest!r} received {unhxlist(a)!r}, expected the token salted for "
+                            f"{dest!r}: ['OAuth2 {want}']")
+        return None
     if op == "legacy":
         return _oracle_legacy(case, impl)
     if op == "load":
@@ -782,6 +859,8 @@ def nontrivial_key(case, impl):
         return case if f[1] != "-" else None
     if op in ("keep", "keepget"):
         return case if f[2] != "-" else None
+    if op in ("keepseq", "keepgetseq"):
+        return case
     if op in ("prov", "provhttp"):
         return case if f[2] != "-" else None
     if op == "legacy":
@@ -793,7 +872,7 @@ def nontrivial_key(case, impl):
 
 def describe(cases, impl):
     ops, kinds, placements, combos, outcomes, seclen = {}, {}, {}, {}, {}, {}
-    encodings, lookups = {"=": 0, "~": 0, "^": 0}, {}
+    encodings, lookups, seqs = {"=": 0, "~": 0, "^": 0}, {}, {}
 
     def tokkind(t):
         c = _classify(t)
@@ -826,6 +905,11 @@ def describe(cases, impl):
         elif f[0] in ("keep", "keepget"):
             k = tokkind(unhx(f[2]))
             kinds[k] = kinds.get(k, 0) + 1
+        elif f[0] in ("keepseq", "keepgetseq"):
+            sts = [st.split(":") for st in f[1].split(";")]
+            reuse = any(a[1] == b[1] and a[0] != b[0] for i, a in enumerate(sts) for b in sts[i + 1:])
+            key = "sequences_same_token_other_remote" if reuse else "sequences_other"
+            seqs[key] = seqs.get(key, 0) + 1
         elif f[0] in ("prov", "provhttp") and f[2] != "-":
             for s in f[2].split(";"):
                 k = tokkind(unhx(s.split(":")[0]))
@@ -840,7 +924,7 @@ def describe(cases, impl):
             combos[key] = combos.get(key, 0) + 1
     return {"ops": ops, "token_kinds": kinds, "v2_secret_lengths": seclen, "placements": placements,
             "placement_combinations": combos, "impl_outcomes": outcomes,
-            "item_encodings": encodings, "local_lookup_outcomes": lookups}
+            "item_encodings": encodings, "local_lookup_outcomes": lookups, "keepstore_sequences": seqs}
 
 
 def neighbours(case, rng):
